@@ -61,6 +61,12 @@ theorem calcR_eq_spec (n : Nat) (r M Z : α) (a b : Item α) (hd : b.delta = Fns
   · simp only [beq_self_eq_true, if_true, and_self]
     ring
 
+/-- the characteristic does not depend on the characteristics stored in the items -/
+theorem Spec.R_congr (n : Nat) (r M Z : α) {a a' b b' : Item α} (ha : eraseR a' = eraseR a)
+    (hb : eraseR b' = eraseR b) : Spec.R n r M Z a' b' = Spec.R n r M Z a b := by
+  show Spec.R n r M Z (eraseR a') (eraseR b') = Spec.R n r M Z (eraseR a) (eraseR b)
+  rw [ha, hb]
+
 section
 variable {p : Params α} {s : State α}
 
@@ -106,6 +112,18 @@ theorem C02_selection_is_argmax (hL : FnsLaws α) (hr : 1 < p.r) (hn : 0 < p.n) 
   have h1 := hs.argmax b hab.mem_right
   rw [hR a b hab, hR _ _ hs.neighbours] at h1
   exact (keyLe_some_some _ _).1 h1
+
+/-- The same with the neighbouring pairs taken in the list of `s` itself (which differs from
+`pr.s.items` only in the characteristics stored in the items). -/
+theorem C02_selection_is_argmax_items (hL : FnsLaws α) (hr : 1 < p.r) (hn : 0 < p.n) (h : Inv p s)
+    {pr : Prep α} (hp : prepare p s = .ok pr) :
+    ∀ a b, Neighbours s.items a b →
+      Spec.R p.n p.r s.M s.Z a b ≤ Spec.R p.n p.r s.M s.Z pr.left pr.old := by
+  intro a b hab
+  have hs := prepare_spec' hL hr hn h hp
+  obtain ⟨a', b', hab', ea, eb⟩ := neighbours_transfer hs.items_eq hab
+  rw [← Spec.R_congr p.n p.r s.M s.Z ea eb]
+  exact C02_selection_is_argmax hL hr hn h hp a' b' hab'
 
 /-- **C02, the formula of the new point.** -/
 theorem C02_new_point_formula (hL : FnsLaws α) (hr : 1 < p.r) (hn : 0 < p.n) (h : Inv p s)
